@@ -15,6 +15,23 @@
 (* the class of byte strings that do not compile.  The binding             *)
 (* (harness/checks/c19.py) concretises them in many ways.                  *)
 (*                                                                         *)
+(* Profile says which kind of script store the behaviours are about:       *)
+(*  - "dict": any name can be stored (pymap's dict backend);               *)
+(*  - "single": the store has room for ONE script under ONE permanent      *)
+(*    name (pymap.filter.SingleFilterSet, the maildir backend's file       *)
+(*    dovecot.sieve, permanently called "active"): Holdable = {n1}, n1 is  *)
+(*    bound to that name, n2 to any other name.  The property is the same: *)
+(*    the store is a map name -> bytes with at most one active name.  What *)
+(*    such a store may do differently is only this: it MAY refuse (NO) a   *)
+(*    name it cannot hold (PUTSCRIPT, RENAMESCRIPT target), and since the  *)
+(*    stored script is always the active one it refuses to deactivate it   *)
+(*    (SETACTIVE "").  An OK that stores nothing is never allowed.         *)
+(* The named deviations of the tree under test (DevTags) are the outcomes  *)
+(* that contradict the property; deviation d REPLACES the outcome the      *)
+(* property asks for when d \in Open (the as-is model the binding follows; *)
+(* Open = {} when the model is checked against its laws), and the result   *)
+(* carries r.dev = d.                                                      *)
+(*                                                                         *)
 (* Every action carries the result `r` the server must produce as its last *)
 (* parameter (so that it shows up in the edge labels of the dumped state   *)
 (* graph) and stores it in `last` together with the command.  Where        *)
@@ -31,10 +48,12 @@ CONSTANTS c1, c2, c3,       \* connections
           none,             \* no user / no content
           Scope,            \* "small" | "medium" | "full": which arguments each
                             \* connection uses (bounds only, not semantics)
-          Latitude          \* the alternatives (r.alt tags) that are enabled where
+          Latitude,         \* the alternatives (r.alt tags) that are enabled where
                             \* the property allows two behaviours: all of them when
                             \* the model is checked; the ones the implementation is
                             \* measured to take when behaviours are generated
+          Profile,          \* "dict" | "single": the kind of script store
+          Open              \* the deviations (r.dev tags) that are switched on
 
 VARIABLES auth,    \* auth[c]: the user connection c is authenticated as, or none
           store,   \* store[u][n]: content of script n of user u, or none
@@ -51,6 +70,10 @@ Valid    == {s1, s2}
 Contents == Valid \cup {bad}
 
 Dom(u) == {n \in Names : store[u][n] # none}
+
+\* the names the store has room for
+Holdable == IF Profile = "single" THEN {n1} ELSE Names
+Single   == Profile = "single"
 
 ---------------------------------------------------------------------------
 (* Bounds.  small: c1 belongs to u1 and uses every argument, c2 belongs to *)
@@ -78,7 +101,7 @@ Codes == {"", "NONEXISTENT", "ACTIVE", "ALREADYEXISTS", "QUOTA", "TAG", "ANY"}
 
 Res(cls, code, kind, names, act, body, owner, alt) ==
     [cls |-> cls, code |-> code, kind |-> kind, names |-> names, act |-> act,
-     body |-> body, owner |-> owner, alt |-> alt]
+     body |-> body, owner |-> owner, alt |-> alt, dev |-> ""]
 
 Plain(cls, code) == Res(cls, code, "plain", {}, {}, none, none, "")
 Ok          == Plain({"OK"}, {""})
@@ -89,6 +112,22 @@ Refused     == Plain({"NO", "BYE"}, {"ANY"})     \* the gate: refused, maybe dro
 Alt(r, tag) == [r EXCEPT !.alt = tag]
 AltTags     == {"PutBadRefused", "PutBadStored", "AuthzRefused", "AuthzAsAuthcid"}
 Allowed(rs) == {r \in rs : r.alt \in Latitude}
+\* Deviations of the single store, each named after what it does:
+\*  SinglePutOtherNameDropped  PUTSCRIPT of a name the store cannot hold: OK,
+\*                             nothing stored (PUTSCRIPT-then-GETSCRIPT)
+\*  SingleDeleteActive         DELETESCRIPT of the stored (= active) script: OK,
+\*                             the script is gone (the active script cannot be
+\*                             deleted)
+\*  SingleSetActiveMissing     SETACTIVE of the holdable name while nothing is
+\*                             stored: OK, nothing is active (LISTSCRIPTS marks
+\*                             the active one)
+\*  SingleDeleteMissing        DELETESCRIPT of the holdable name while nothing is
+\*                             stored: OK (a map has nothing to delete there)
+DevTags     == {"SinglePutOtherNameDropped", "SingleDeleteActive",
+                "SingleSetActiveMissing", "SingleDeleteMissing"}
+Dev(r, tag) == [r EXCEPT !.dev = tag]
+\* the outcome the property asks for, unless the deviation is switched on
+OrDev(r, tag) == IF Single /\ tag \in Open THEN Dev(Ok, tag) ELSE r
 ListR(ns, a) == Res({"OK"}, {""}, "list", ns, a, none, none, "")
 ScriptR(s)   == Res({"OK"}, {""}, "script", {}, {}, s, none, "")
 CapsR(o)     == Res({"OK"}, {""}, "caps", {}, {}, none, o, "")
@@ -97,9 +136,10 @@ ResultT == [cls : SUBSET {"OK", "NO", "BYE", "NONE"}, code : SUBSET Codes,
             kind : {"plain", "list", "script", "caps"},
             names : SUBSET Names, act : SUBSET Names,
             body : Contents \cup {none}, owner : Users \cup {none},
-            alt : AltTags \cup {""}]
+            alt : AltTags \cup {""}, dev : DevTags \cup {""}]
 
 ASSUME Latitude \subseteq AltTags
+ASSUME Profile \in {"dict", "single"} /\ Open \subseteq DevTags
 
 PreAuthCmds == {"Capability", "Noop", "Logout", "StartTLS", "Auth", "AuthJunk"}
 ScriptCmds  == {"Put", "Get", "List", "SetActive", "Delete", "Rename", "Check", "HaveSpace"}
@@ -180,13 +220,18 @@ Unknown(c, r) == r \in UnknownRes(c) /\ Did(c, "Unknown", none, none, r) /\ Same
 PutRes(c, n, s) ==
     IF auth[c] = none THEN {Refused}
     ELSE IF n = empty THEN {NoAny}
+    ELSE IF n \notin Holdable THEN {OrDev(NoAny, "SinglePutOtherNameDropped")}
     ELSE IF s = bad THEN Allowed({Alt(NoAny, "PutBadRefused"), Alt(Ok, "PutBadStored")})
     ELSE {Ok}
+\* single: the stored script is the active one
 Put(c, n, s, r) ==
     /\ r \in PutRes(c, n, s)
     /\ Did(c, "Put", n, s, r)
-    /\ store' = IF r.cls = {"OK"} THEN [store EXCEPT ![auth[c]][n] = s] ELSE store
-    /\ UNCHANGED <<auth, active>>
+    /\ store' = IF r.cls = {"OK"} /\ r.dev = ""
+                THEN [store EXCEPT ![auth[c]][n] = s] ELSE store
+    /\ active' = IF Single /\ r.cls = {"OK"} /\ r.dev = ""
+                 THEN [active EXCEPT ![auth[c]] = {n}] ELSE active
+    /\ UNCHANGED auth
 
 GetRes(c, n) ==
     IF auth[c] = none THEN {Refused}
@@ -202,13 +247,19 @@ List(c, r) == r \in ListRes(c) /\ Did(c, "List", none, none, r) /\ Same
 
 SetActiveRes(c, n) ==
     IF auth[c] = none THEN {Refused}
-    ELSE IF n = empty THEN {Ok}
-    ELSE IF n \notin Dom(auth[c]) THEN {No("NONEXISTENT")}
+    ELSE IF n = empty THEN (IF ~Single THEN {Ok}
+                            \* single: the stored script cannot be deactivated;
+                            \* with nothing stored OK and NO say the same
+                            ELSE IF Dom(auth[c]) # {} THEN {NoAny}
+                            ELSE {Plain({"OK", "NO"}, {"ANY"})})
+    ELSE IF n \notin Dom(auth[c])
+         THEN {IF n \in Holdable THEN OrDev(No("NONEXISTENT"), "SingleSetActiveMissing")
+                                ELSE No("NONEXISTENT")}
     ELSE {Ok}
 SetActive(c, n, r) ==
     /\ r \in SetActiveRes(c, n)
     /\ Did(c, "SetActive", n, none, r)
-    /\ active' = IF r.cls = {"OK"}
+    /\ active' = IF r.cls = {"OK"} /\ r.dev = ""
                  THEN [active EXCEPT ![auth[c]] = IF n = empty THEN {} ELSE {n}]
                  ELSE active
     /\ UNCHANGED <<auth, store>>
@@ -216,20 +267,26 @@ SetActive(c, n, r) ==
 DeleteRes(c, n) ==
     IF auth[c] = none THEN {Refused}
     ELSE IF n = empty THEN {NoAny}
-    ELSE IF n \notin Dom(auth[c]) THEN {No("NONEXISTENT")}
-    ELSE IF n \in active[auth[c]] THEN {No("ACTIVE")}
+    ELSE IF n \notin Dom(auth[c])
+         THEN {IF n \in Holdable THEN OrDev(No("NONEXISTENT"), "SingleDeleteMissing")
+                                ELSE No("NONEXISTENT")}
+    ELSE IF n \in active[auth[c]] THEN {OrDev(No("ACTIVE"), "SingleDeleteActive")}
     ELSE {Ok}
+\* (SingleDeleteActive: the script and its active mark are both gone)
 Delete(c, n, r) ==
     /\ r \in DeleteRes(c, n)
     /\ Did(c, "Delete", n, none, r)
     /\ store' = IF r.cls = {"OK"} THEN [store EXCEPT ![auth[c]][n] = none] ELSE store
-    /\ UNCHANGED <<auth, active>>
+    /\ active' = IF r.dev = "SingleDeleteActive"
+                 THEN [active EXCEPT ![auth[c]] = @ \ {n}] ELSE active
+    /\ UNCHANGED auth
 
 RenameRes(c, a, b) ==
     IF auth[c] = none THEN {Refused}
     ELSE IF a = empty \/ b = empty THEN {NoAny}
     ELSE IF a \notin Dom(auth[c]) THEN {No("NONEXISTENT")}
     ELSE IF b \in Dom(auth[c]) THEN {No("ALREADYEXISTS")}
+    ELSE IF b \notin Holdable THEN {NoAny}
     ELSE {Ok}
 Rename(c, a, b, r) ==
     /\ r \in RenameRes(c, a, b)
@@ -251,7 +308,8 @@ Sizes == {"small", "big"}
 HaveSpaceRes(c, n, sz) ==
     IF auth[c] = none THEN {Refused}
     ELSE IF n = empty THEN {NoAny}
-    ELSE IF sz = "big" THEN {Plain({"OK", "NO"}, {"QUOTA", ""})} ELSE {Ok}
+    ELSE IF sz = "big" \/ n \notin Holdable THEN {Plain({"OK", "NO"}, {"QUOTA", ""})}
+    ELSE {Ok}
 HaveSpace(c, n, sz, r) == r \in HaveSpaceRes(c, n, sz) /\ Did(c, "HaveSpace", n, sz, r) /\ Same
 
 ---------------------------------------------------------------------------
@@ -269,11 +327,20 @@ AuthAll       == {Ok, NoAny, Alt(NoAny, "AuthzRefused"), Alt(Ok, "AuthzAsAuthcid
 AuthJunkAll   == {NoAny}
 UnauthAll     == {Refused, Ok}
 UnknownAll    == {Refused, NoAny}
+\* (the results only the single profile has are added there only: for "dict" the
+\* universes, and with them the order in which TLC enumerates the successors of a
+\* state - hence its -simulate behaviours for a seed - are what they always were)
+DevAll(S)     == IF Single THEN {Dev(Ok, d) : d \in S} ELSE {}
+SingleOnly(S) == IF Single THEN S ELSE {}
 PutAll        == {Refused, NoAny, Ok, Alt(NoAny, "PutBadRefused"), Alt(Ok, "PutBadStored")}
+                     \cup DevAll({"SinglePutOtherNameDropped"})
 GetAll        == {Refused, NoAny, No("NONEXISTENT")} \cup {ScriptR(s) : s \in Contents}
 ListAll       == {Refused} \cup {ListR(ns, a) : ns \in SUBSET Names, a \in SUBSET Names}
 SetActiveAll  == {Refused, Ok, No("NONEXISTENT")}
+                     \cup SingleOnly({NoAny, Plain({"OK", "NO"}, {"ANY"})})
+                     \cup DevAll({"SingleSetActiveMissing"})
 DeleteAll     == {Refused, NoAny, Ok, No("NONEXISTENT"), No("ACTIVE")}
+                     \cup DevAll({"SingleDeleteActive", "SingleDeleteMissing"})
 RenameAll     == {Refused, NoAny, Ok, No("NONEXISTENT"), No("ALREADYEXISTS")}
 CheckAll      == {Refused, NoAny, Plain({"OK"}, {"ANY"})}
 HaveSpaceAll  == {Refused, NoAny, Ok, Plain({"OK", "NO"}, {"QUOTA", ""})}
@@ -390,6 +457,29 @@ MapFrame == [][\A u \in Users, n \in Names : store'[u][n] # store[u][n] =>
                   \/ last'.cmd = "Put" /\ last'.a = n
                   \/ last'.cmd = "Delete" /\ last'.a = n
                   \/ last'.cmd = "Rename" /\ n \in {last'.a, last'.b}]_vars
+
+\* SETACTIVE of a name answered OK makes it the active one (the one LISTSCRIPTS
+\* marks)
+SetActiveTakes == [][(last'.cmd = "SetActive" /\ last'.res.cls = {"OK"}
+                      /\ auth[last'.conn] # none /\ last'.a # empty)
+                        => last'.a \in active'[auth[last'.conn]]]_vars
+
+\* DELETESCRIPT answered OK deleted a script that was there
+DeleteRemoves == [][(last'.cmd = "Delete" /\ last'.res.cls = {"OK"}
+                     /\ auth[last'.conn] # none)
+                       => /\ store[auth[last'.conn]][last'.a] # none
+                          /\ store'[auth[last'.conn]][last'.a] = none]_vars
+
+\* the single store: only the holdable name is ever stored and what is stored
+\* is the active script
+SingleShape == Single => \A u \in Users : Dom(u) \subseteq Holdable /\ active[u] = Dom(u)
+
+\* the clause of the property each deviation contradicts (TLC confirms it: the
+\* model with Open = {d} violates Clause(d), see harness/checks/c19.py)
+DevClause == [SinglePutOtherNameDropped |-> "PutThenGet",
+              SingleDeleteActive        |-> "ActiveNotDeleted",
+              SingleSetActiveMissing    |-> "SetActiveTakes",
+              SingleDeleteMissing       |-> "DeleteRemoves"]
 
 \* the graph that is replayed on the real server forgets `last` (the result is
 \* in the edge label)
